@@ -274,6 +274,11 @@ def phases(ctx, uberjob, MemStore, Trunc, check_chain):
         if head != line:
             ctx.fail("phase:%s:head" % key, "%s: symbolic traceback starts at %r, expected %r" % (tag, head, line), {"phase": tag, "head": head, "expected": line})
 
+    def registry_forms(r):
+        """the registry itself and the copies a user may run with (Registry.copy, copy.copy, copy.deepcopy is not used: it would copy nodes)"""
+        import copy
+        return [("", r), ("/registry.copy()", r.copy()), ("/copy.copy(registry)", copy.copy(r))]
+
     # run phase, plain call
     p = uberjob.Plan()
     a = p.call(ok, 1)
@@ -297,20 +302,22 @@ def phases(ctx, uberjob, MemStore, Trunc, check_chain):
         st = MemStore(fail=fail)
         r.add(a, st); lr = here()
         c = p.call(ok, a)
-        try:
-            uberjob.run(p, registry=r, output=c, progress=None)
-        except uberjob.CallError as e:
-            want = st.__class__.write if fail == "write" else st.__class__.read
-            expect(tag, fail, e, lambda cl: cl.fn is want, lr)
+        for via, rr in registry_forms(r):
+            try:
+                uberjob.run(p, registry=rr, output=c, progress=None)
+            except uberjob.CallError as e:
+                want = st.__class__.write if fail == "write" else st.__class__.read
+                expect(tag + via, fail, e, lambda cl: cl.fn is want, lr)
     # source read fails
     p, r = uberjob.Plan(), uberjob.Registry()
     st = MemStore(fail="read"); st.t = __import__("datetime").datetime(2020, 1, 1)
     s = r.source(p, st); ls = here()
     c = p.call(ok, s)
-    try:
-        uberjob.run(p, registry=r, output=c, progress=None)
-    except uberjob.CallError as e:
-        expect("run/source-read", "source_read", e, lambda cl: cl.fn is st.__class__.read, ls)
+    for via, rr in registry_forms(r):
+        try:
+            uberjob.run(p, registry=rr, output=c, progress=None)
+        except uberjob.CallError as e:
+            expect("run/source-read" + via, "source_read", e, lambda cl: cl.fn is st.__class__.read, ls)
     # modified-time query fails during the stale check: the examined node's creation line
     p, r = uberjob.Plan(), uberjob.Registry()
     a = p.call(ok, 1); la = here()
